@@ -13,9 +13,10 @@ MODULE = "DaliVerif.Props.C07"
 EXES = ["m_gearseq"]
 GEN = False
 THEOREMS = ["findNext_spec", "findNext_run", "findNext_run_full", "commissioning_ends_with_terminate",
-            "commissioning_all_disabled", "bus_counts", "findNext_on_bus", "inner_step", "round_inv_partial",
-            "commissioning_addresses", "commissioning_count", "commissioning_raise", "commissioning_bound",
-            "commissioning_terminates", "commissioning_others", "commissioning_dry"]
+            "commissioning_all_disabled", "bus_counts", "findNext_on_bus", "inner_step", "round_inv",
+            "commissioning_addresses", "commissioning_count", "commissioning_raise", "unconfirmed_verify_raises",
+            "commissioning_bound", "commissioning_terminates", "commissioning_holds", "commissioning_others",
+            "commissioning_dry", "commissioning_spec", "commissioning_spec_separating"]
 TRUSTED = ["hand-written models Model/GearSeq.lean of _find_next and Commissioning (dali/sequences.py), tied by "
            "lock-step execution of the real generator (every command, progress and sleep object)",
            "specification bus Spec/GearBus.lean: my reading of IEC 62386-102 random addressing (INITIALISE, RANDOMISE, "
@@ -26,35 +27,29 @@ ASSUMPTIONS = ["two or more simultaneous YES answers are seen as a framing error
                "random addresses and all future draws are 24-bit (hypothesis WF of the bus theorems)",
                "clashing units eventually draw different random addresses (otherwise the real loop does not end; "
                "hypothesis of commissioning_terminates: the participants' draws of some round are pairwise distinct)"]
-PARTIAL = ("proved in Lean for every bus size, every population, every stream of random draws (by induction on the "
-           "loop budgets, no sampling): the binary search (findNext_spec, findNext_run); bus_counts (the specification "
-           "bus restricted to SEARCHADDR+COMPARE is a counting environment) and findNext_on_bus; inner_step (one "
-           "iteration: program / verify / withdraw act on exactly the unit found); round_inv_partial (one RANDOMISE "
-           "round); and for the whole sequence: ends with TERMINATE, all units DISABLED, addresses handed out are a "
-           "prefix of the permitted-and-unused list hence pairwise distinct, permitted, not in use "
-           "(commissioning_addresses), a normal return handed out min(#participants, #permitted left) "
-           "(commissioning_count), non-participants keep their address (commissioning_others), a dry run changes no "
-           "short address and programs nothing (commissioning_dry), the only exception is ProgramShortAddressFailure, "
-           "directly after an unconfirmed VERIFY, only with a faulty unit (commissioning_raise), at most "
-           "rounds*(n+1)*202+140 commands (commissioning_bound), and the round budget is not exhausted once the "
-           "participants' draws of some round are pairwise distinct (commissioning_terminates). NOT proved (checked "
-           "by commCheck on every lock-step run instead): the 'holds' clause (after a single-round, fault-free, "
-           "non-dry run the participants hold exactly the addresses handed out; per iteration it is inner_step, the "
-           "accumulation over the round is missing, which is also the last conjunct of round_inv) and the packaging "
-           "of the separate clause theorems into the literal equation commCheck ... = [].")
+PARTIAL = ("every clause of the property is now a Lean theorem about the model run against the specification bus, for "
+           "every bus size, population and random-draw stream (commissioning_spec: commCheck ... = [] for every run "
+           "that does not exhaust the model's round budget, i.e. whose last round is clash-free; "
+           "commissioning_terminates: that is the case once the participants' draws of some round are pairwise "
+           "distinct). What stays outside the proof: the tie model = code is the sampled lock-step run; the Python "
+           "loop is unbounded where the model follows `rounds` rounds; random addresses and draws are assumed 24-bit "
+           "and the permitted list duplicate-free within 0..63. Deliberately not claimed (DESIGN par. 6): final "
+           "addresses of participants pairwise distinct after two or more rounds (false: the re-draw hazard, an "
+           "example in Props/C07.lean); the single-round case is commissioning_holds.")
 LEVEL_TEXT = ("Lean 4 theorems about the model of _find_next / Commissioning run against the specification bus, for every "
-              "bus size and every random-draw stream: the search returns the least enabled random address / clash / "
-              "none (findNext_spec, findNext_run, bus_counts, findNext_on_bus); one iteration programs, verifies and "
-              "withdraws exactly the unit found (inner_step); one round (round_inv_partial); the whole sequence ends "
-              "with TERMINATE with every unit DISABLED, hands out pairwise distinct, permitted, unused addresses in "
-              "list order, min(#participants, #permitted left) of them, leaves non-participants alone, changes "
-              "nothing in a dry run, raises only ProgramShortAddressFailure (after an unconfirmed VERIFY, faulty unit "
-              "present), within rounds*(n+1)*202+140 commands, and terminates once the participants' draws of some "
-              "round are pairwise distinct. Not a theorem: the final 'participants hold exactly the addresses handed "
-              "out' clause for single-round runs (evaluated by commCheck on the sampled lock-step runs).")
-LEVEL_NOTE = ("Partial proof (one clause, 'holds', and the literal commCheck = [] packaging missing). Trusted beyond the "
-              "kernel: the specification bus, the clause checker, and the sampled lock-step tie model = code (0..70 "
-              "units, duplicates, permitted sets 0/1/63/64, engineered clash streams, faults at every position).")
+              "bus size and every random-draw stream (induction on the loop budgets, no bound, no sampling): the search "
+              "returns the least enabled random address / clash / none (findNext_spec, findNext_run, bus_counts, "
+              "findNext_on_bus); one iteration programs, verifies and withdraws exactly the unit found (inner_step); "
+              "one round (round_inv); the whole sequence ends with TERMINATE with every unit DISABLED, hands out "
+              "pairwise distinct, permitted, unused addresses in list order, min(#participants, #permitted left) of "
+              "them, leaves non-participants alone, changes nothing in a dry run, raises only "
+              "ProgramShortAddressFailure (exactly after an unconfirmed VERIFY; needs a faulty unit), stays within "
+              "rounds*(n+1)*202+140 commands, after a single round the participants hold exactly the addresses handed "
+              "out, and it terminates once the participants' draws of some round are pairwise distinct; packaged as "
+              "commissioning_spec: the clause checker commCheck returns [] on every such run.")
+LEVEL_NOTE = ("Trusted beyond the kernel: the specification bus (my reading of IEC 62386-102), the clause checker, and the "
+              "sampled lock-step tie model = code (0..70 units, duplicates, permitted sets 0/1/63/64, engineered clash "
+              "streams, faults at every position).")
 TECHNIQUE = ("Lean 4 proof (induction on the search interval and on the loop budgets; simulation bus ~ counting "
              "environment; per-unit views; trace-class lemmas over the resumption program) + "
              "lock-step model-vs-code correspondence and property-clause evaluation against the Lean specification bus")
